@@ -59,7 +59,7 @@ func (*baseExecutor) GetScanSlice(columnNames []string, tableMeta *types.TableMe
 	for _, columnName := range columnNames {
 		var (
 			// get from metaData from this column
-			columnMeta = tableMeta.Columns[columnName]
+			columnMeta, _ = tableMeta.GetColumnMeta(columnName)
 		)
 		switch strings.ToUpper(columnMeta.DatabaseTypeString) {
 		case "VARCHAR", "NVARCHAR", "VARCHAR2", "CHAR", "TEXT", "JSON", "TINYTEXT":
@@ -183,7 +183,11 @@ func (b *baseExecutor) buildRecordImages(rowsi driver.Rows, tableMetaData *types
 		columns := make([]types.ColumnImage, 0)
 		// build record image
 		for i, name := range columnNames {
-			columnMeta := tableMetaData.Columns[name]
+			// the result set names the column as the statement spelled it, the image as the catalogue does
+			columnMeta, known := tableMetaData.GetColumnMeta(name)
+			if known {
+				name = columnMeta.ColumnName
+			}
 
 			keyType := types.IndexTypeNull
 			if _, ok := tableMetaData.GetPrimaryKeyMap()[name]; ok {
